@@ -174,7 +174,8 @@ func WithMounts(mounts map[string]*Mount) Option {
 			// The table is searched with cleaned paths: the mount point is
 			// cleaned as well ("/a/" is "/a"), and it is what the mount is
 			// known by, whatever the Target of the value says
-			if v == nil {
+			if v == nil || v.Source == nil {
+				// (nothing to serve the mount point with)
 				continue
 			}
 			target := filepath.Clean(k)
